@@ -45,6 +45,9 @@ BUILDS = ("plain", "flipped", "mixed", "grown")
 
 # explicit graphs whose STORED edge orientations go round their cycles (add_edge(0,1); add_edge(1,2); add_edge(2,0)): a
 # tie-break by stored orientation is a total order on graphs written (low, high) and only shows on these (round-6 seed C06)
+# a hub of degree 6 with its rim (spokes listed first, the rim last / first) and a star of degree 7 with two rim edges at the end
+WHEEL6 = [[0, i] for i in range(1, 7)] + [[i, i % 6 + 1] for i in range(1, 7)]
+STAR7_PLUS = [[1, 2]] + [[0, i] for i in range(1, 8)] + [[6, 7]]
 ROUND_GRAPHS = [
     (6, [[0, 1], [1, 2], [2, 0], [3, 4], [4, 5], [5, 3]]),          # two triangles, both going round
     (5, [[0, 1], [1, 0], [2, 3], [3, 4], [4, 2]]),                  # a parallel pair going round + a triangle going round
@@ -208,7 +211,7 @@ def descs_C06(tier):
         for prim in prims:
             for n in range(1, 4):
                 for edges in multigraphs(n, 4 if tier == "quick" else 5):
-                    for form in (("vars", "neg") if len(edges) >= 1 else ("vars",)):
+                    for form in (("vars", "neg", "cmp") if len(edges) >= 1 else ("vars",)):
                         yield dict(func=func, n=n, edges=[list(e) for e in edges], prim=prim, form=form)
             for edges in simple_graphs(4):
                 yield dict(func=func, n=4, edges=[list(e) for e in edges], prim=prim, form="vars")
@@ -330,11 +333,14 @@ def inst_C07(d):
             def warm(g):
                 s2 = _S()
                 G.division_connected_variable_groups_with_borders(s2, group_size=None, is_border=list(s2.bool_array(len(g.edges))), graph=g, use_graph_primitive=prim)
-            G.division_connected_variable_groups_with_borders(s, group_size=state["gs"], is_border=caller[:m],
+            xb, valb = emission.bool_forms(d.get("bform", "vars"), caller[:m]) if m else ([], lambda a: [])
+            state["valb"] = valb
+            G.division_connected_variable_groups_with_borders(s, group_size=state["gs"], is_border=xb,
                                                               graph=_graph(G, n, edges, d.get("build", "plain"), warm), use_graph_primitive=prim)
 
     def pred(alpha):
-        return graphpred.division_with_borders_ok(n, edges, list(alpha[:m]), sizes_of(alpha[m:]))
+        bor = state["valb"](list(alpha[:m])) if "valb" in state else list(alpha[:m])
+        return graphpred.division_with_borders_ok(n, edges, bor, sizes_of(alpha[m:]))
 
     def classify(alpha):
         return "border"
@@ -357,6 +363,10 @@ def descs_C07(tier):
                 if len(edges) <= 5:
                     for prim in (False, True):
                         yield dict(func="division_connected_variable_groups_with_borders", n=n, edges=[list(e) for e in edges], size=sf, prim=prim)
+                    if sf in ("none", "const2") and len(edges) >= 2:
+                        # border flags given as Python literals / negations / comparison nodes
+                        for bform in ("const", "neg", "cmp"):
+                            yield dict(func="division_connected_variable_groups_with_borders", n=n, edges=[list(e) for e in edges], size=sf, prim=False, bform=bform)
     for (n, edges) in ROUND_GRAPHS[:2] + ROUND_GRAPHS[3:]:
         yield dict(func="division_connected_variable_groups_with_borders", n=n, edges=[list(e) for e in edges], size="none", prim=False)
         yield dict(func="division_connected_variable_groups_with_borders", n=n, edges=[list(e) for e in edges],
@@ -417,7 +427,7 @@ def descs_C08(tier):
     for func in ("active_vertices_not_adjacent", "active_vertices_not_adjacent_and_not_segmenting"):
         for n in range(1, nmax + 1):
             for edges in simple_graphs(n):
-                for form in (("vars", "neg") if n < nmax else ("vars",)):
+                for form in (("vars", "neg", "cmp", "ncmp") if n < nmax else ("vars", "cmp")):
                     yield dict(func=func, n=n, edges=[list(e) for e in edges], form=form)
         # "all graphs": self-loops (an edge whose two end points are the same vertex: that vertex cannot be active) and
         # parallel edges
@@ -430,6 +440,9 @@ def descs_C08(tier):
         for (h, w) in shapes:
             yield dict(func=func, grid=[h, w], as_grid=True, form="vars")
             yield dict(func=func, grid=[h, w], as_grid=False, form="vars")
+            if h * w <= 6:
+                yield dict(func=func, grid=[h, w], as_grid=True, form="cmp")
+                yield dict(func=func, grid=[h, w], as_grid=False, form="ncmp")
 
 
 # ------------------------------------------------------------------------------------------- C09
@@ -461,7 +474,7 @@ def inst_C09(d):
 def descs_C09(tier):
     for n in range(1, 4):
         for edges in multigraphs(n, 4 if tier == "quick" else 6):
-            for form in (("vars", "neg", "xor2") if len(edges) >= 2 else ("vars",)):
+            for form in (("vars", "neg", "xor2", "cmp", "ncmp") if len(edges) >= 2 else ("vars",)):
                 yield dict(func="active_edges_acyclic", n=n, edges=[list(e) for e in edges], form=form)
     for edges in simple_graphs(4):
         yield dict(func="active_edges_acyclic", n=4, edges=[list(e) for e in edges], form="vars")
@@ -552,6 +565,19 @@ def deep_alphas(d):
     import zlib
     rnd = _random.Random(zlib.crc32(json_key(d).encode()) % 100000)      # stable across processes (no str hash)
     f = d["func"]
+    if d.get("deep") == "sparse":
+        # LARGE structures (a size-dependent branch of an encoder -- "for n >= 100 split the flags into blocks" -- only runs
+        # there) with SPARSE patterns, which a solver decides at once: nothing, single elements at both ends and in the
+        # middle, pairs and triples of them
+        k = len(_edges_of(d)) if f.startswith("active_edges") else _struct(d)[0]
+        picks = sorted(set(x for x in (0, 1, 2, k // 2, k // 2 + 1, k - 4, k - 3, k - 2, k - 1) if 0 <= x < k))
+        out = [[False] * k]
+        for r in (1, 2, 3):
+            for comb in itertools.combinations(picks, r):
+                if r == 3 and rnd.random() < 0.6:
+                    continue
+                out.append([i in comb for i in range(k)])
+        return out
     if f == "active_vertices_connected":
         n, _ = _struct(d)
         bases = [[True] * n, [True] * (n - 1) + [False], [False] + [True] * (n - 1), [i % 2 == 0 for i in range(n)], [False] * n,
@@ -587,6 +613,23 @@ def deep_alphas(d):
             out.append([edges[i] is not None and tuple(sorted(edges[i])) in es for i in range(len(edges))])
         out.append([False] * len(edges))
         out.append([tuple(sorted(e)) in {(0, 1), (1, 2), (0, 2)} for e in edges])
+        return out
+    if d.get("wheel"):
+        # a hub of degree >= 5 (an encoder may treat high-degree vertices differently): every triangle through the hub, the
+        # rim, all spokes, spokes plus one rim edge each, single edges
+        n, edges = _struct(d)
+        m = len(edges)
+        hub = [i for i, e in enumerate(edges) if 0 in e]
+        rim = [i for i, e in enumerate(edges) if 0 not in e]
+        out = [[False] * m, [i in hub for i in range(m)], [i in rim for i in range(m)]]
+        for r in rim:
+            u, v = edges[r]
+            tri = [r] + [i for i in hub if set(edges[i]) in ({0, u}, {0, v})]
+            out.append([i in tri for i in range(m)])
+            out.append([i in hub or i == r for i in range(m)])
+            out.append([i == r for i in range(m)])
+        for i in hub:
+            out.append([j in hub and j != i for j in range(m)])
         return out
     if f in ("active_edges_single_cycle", "active_edges_single_path", "active_edges_acyclic"):
         m = len(_edges_of(d))
@@ -825,6 +868,11 @@ def deep_descs(prop, tier):
         for g in ((1, 12), (12, 1), (4, 6), (6, 4)) + (((5, 7), (3, 10)) if big else ()):
             for acyclic in (False, True):
                 out.append(dict(func="active_vertices_connected", grid=list(g), acyclic=acyclic, prim=False, form="vars", deep=True))
+    if prop == "C04":
+        for acyclic in (False, True):
+            out.append(dict(func="active_vertices_connected", grid=[8, 13], acyclic=acyclic, prim=False, form="vars", deep="sparse"))
+            out.append(dict(func="active_vertices_connected", n=101, edges=P(101), acyclic=acyclic, prim=False, form="vars", deep="sparse"))
+            out.append(dict(func="active_vertices_connected", n=110, edges=C(110), acyclic=acyclic, prim=False, form="vars", deep="sparse"))
     if prop == "C05":
         for n in (8, 11):
             for R in (2, 3):
@@ -840,6 +888,8 @@ def deep_descs(prop, tier):
                 out.append(dict(func="active_edges_single_cycle", n=n, edges=C(n), prim=prim, form="vars", deep=True))
                 out.append(dict(func="active_edges_single_cycle", n=n, edges=C(n) + [[0, 1]], prim=prim, form="vars", deep=True))
             out.append(dict(func="active_edges_single_path", n=n, edges=P(n), prim=True, form="vars", deep=True))
+        out.append(dict(func="active_edges_single_cycle", n=120, edges=C(120) + [[0, 60]], prim=False, form="vars", deep="sparse"))
+        out.append(dict(func="active_edges_single_cycle", n=7, edges=WHEEL6, prim=False, form="vars", deep=True, wheel=True))
         K5 = [[u, v] for u in range(5) for v in range(u + 1, 5)]
         for prim in (False, True):
             out.append(dict(func="active_edges_single_cycle", n=5, edges=K5, prim=prim, form="vars", deep=True, cycles_of_complete_graph=True))
@@ -865,6 +915,9 @@ def deep_descs(prop, tier):
                 # there (measured: > 9 min for one 6x9 instance); the specialised grid encoding above is what C08 adds
                 out.append(dict(func="active_vertices_not_adjacent_and_not_segmenting", grid=list(g), as_grid=False, form="vars", deep=True))
     if prop == "C09":
+        out.append(dict(func="active_edges_acyclic", n=7, edges=WHEEL6, form="vars", deep=True, wheel=True))
+        out.append(dict(func="active_edges_acyclic", n=8, edges=STAR7_PLUS, form="vars", deep=True, wheel=True))
+        out.append(dict(func="active_edges_acyclic", n=120, edges=C(120) + [[0, 60]], form="vars", deep="sparse"))
         for n in (8, 9, 12, 13):
             out.append(dict(func="active_edges_acyclic", n=n, edges=P(n), form="vars", deep=True))
             out.append(dict(func="active_edges_acyclic", n=n, edges=C(n), form="vars", deep=True))
